@@ -35,6 +35,9 @@ def gen_program(rng, gl):
     if rng.random() < 0.12:
         return gen_growth_program(rng, gl)
     prog = []
+    # the feature values the texts of this program are shaped with (None: the font's defaults, i.e. the first setting of each feature)
+    fv = {fid: rng.choice(vals) for fid, vals in K.FEATS} if rng.random() < 0.6 else None
+    fin_force = [(fv[fid] if fv else vals[0]) for fid, vals in K.FEATS]
     for _ in range(rng.choice((1, 1, 2, 3))):
         pre = rng.choice((0, 0, 1, 2))
         alpha = rng.sample(gl, rng.randrange(3, 9))               # a small alphabet so that rules overlap and fire
@@ -57,6 +60,7 @@ def gen_program(rng, gl):
                     al.append(('C', rng.choice(refs)))
                 elif k < 0.60 and ln - pre > 1: al.append(('D',))
                 elif k < 0.68: al.append(('I', rng.choice(alpha)))
+                if rng.random() < 0.12: al.append(('O', [rng.randrange(-j, ln - j) for _ in range(rng.choice((1, 1, 2, 3)))]))
                 if rng.random() < 0.2 and ('D',) not in al: al.append(('A', rng.choice((0, 100, 777, 1500))))
                 if rng.random() < 0.1 and ('D',) not in al: al.append(('X', rng.choice((-50, 30, 200))))
                 if rng.random() < 0.2 and ('D',) not in al: al.append(('U', rng.randrange(2), rng.choice((1, 2, 7, -3))))
@@ -68,9 +72,14 @@ def gen_program(rng, gl):
                 con = (rng.randrange(0, ln), rng.choice('lge'), rng.choice((0, 100, 462, 520, 751, 777, 1000, 1500)))
             elif rng.random() < 0.3:
                 con = (rng.randrange(0, ln), rng.choice('lge'), rng.choice((0, 1, 2, 7, -3)), rng.randrange(2))      # a test on a user attribute
+            elif rng.random() < 0.3:
+                con = (rng.randrange(0, ln), rng.choice('lge'), rng.choice((-5, -2, 0, 3, 6, 9, 12, 17)), None, rng.randrange(4, K.N_GATTR))     # a glyph attribute of the item's glyph
+            elif rng.random() < 0.25:
+                fi = rng.randrange(len(K.FEATS))
+                con = (rng.randrange(0, ln), rng.choice('lge'), rng.choice((0, 1, 2, 3, 5)), None, None, (fi, K.FEATS[fi][0], fin_force[fi]))   # a feature value of the segment
             ret = rng.choice((-1, -1, -2, -3, 1, 2)) if rng.random() < 0.25 else 0
             rules.append(dict(pre=pre, pat=pat, acts=acts, con=con, ret=ret))
-        prog.append(dict(maxloop=rng.choice((1, 2, 3, 5)), rules=rules, alpha=alpha))
+        prog.append(dict(maxloop=rng.choice((1, 2, 3, 5)), rules=rules, alpha=alpha, feats=fv))
     nsub = len(prog)
     # positioning passes: attach items to earlier / later items of the window, set attach / with points, shifts, advances
     for _ in range(rng.choice((0, 0, 1, 1, 2))):
@@ -141,6 +150,7 @@ def run(chk):
     mexe = vlib.build_model_driver('Rule')
     tmp = os.path.join(vlib.BUILD, 'fuzzfonts', 'c06-%s-%d' % (chk.tier, chk.seed))
     base, gl, inv, advtab = prepare(chk, w, tmp)
+    base = K.enrich(base)          # glyph attributes 4..7 and two features for the constraints to test
     cases, mcases, progs = [], [], []
     for k in range(1500 if thorough else 150):
         prog, nsub = gen_program(rng, gl)
@@ -156,7 +166,8 @@ def run(chk):
             n = rng.choice((1, 2, 3, 5, 8, 12)) if len(prog) != nsub or any(ps['maxloop'] not in (2, 3, 5, 8) or len(ps['alpha']) > 3 for ps in prog) or t > 4 else rng.choice((1, 1, 2, 2, 3))
             gids = [rng.choice(alpha) if rng.random() < 0.85 else rng.choice(gl) for _ in range(n)]
             cid = 'q%d.%d' % (k, t)
-            cases.append(S.case_line(cid, p, [inv[g] for g in gids], 32, ops=('dump', 'udump')))
+            fvs = prog[0].get('feats')
+            cases.append(S.case_line(cid, p, [inv[g] for g in gids], 32, feats=(','.join('%x=%x' % (f, v) for f, v in sorted(fvs.items())) if fvs else '-'), ops=('dump', 'udump')))
             mcases.append('%s gdl %d %s %s %s' % (cid, nsub, text, advtab, ','.join(map(str, gids))))
             progs.append((p, text))
     _, il, _ = vlib.run_pair(None, w, cases, timeout=3000)
